@@ -506,6 +506,12 @@ def run(ctx):
             sw_ = om_switches(g)
             if sw_ and not guarded(g, [bb], sw_, True):
                 return True
+            # by value: with config.only_matching off the site is not reached (the flag may travel through an enum or a local)
+            import json as _json
+            if '"only_matching"' in _json.dumps(g.mir):
+                sx_ = Sccp(g, field_model=lambda o_, n_: I(0) if (o_ == OM_CFG and n_ == "only_matching") else None).run([(0, {})])
+                if bb not in sx_.exec_blocks:
+                    return True
             if depth >= 2:
                 return False
             callers = [(h_, c_) for h_ in facts.fns.values() if h_.crate == "grep_printer" for c_ in h_.calls_to(g.path)]
